@@ -145,9 +145,15 @@ class Engine:
                 self.colnames_ever.add(d["name"])
 
     # ------------------------------------------------------------ state check
-    def check_state(self, ctx: Any) -> None:
+    def check_state(self, ctx: Any, with_index: bool = True) -> None:
+        """with_index=False: the name index (Database.table_dict) is not even read - reading it is an access the
+        implementation may react to, so it belongs to the lookup probes and their seeded schedule"""
         exp = expected_dump(self.w, self.env.renderer_quals)
-        got = real_dump(self.real, self.kinds)
+        got = real_dump(self.real, self.kinds, with_index)
+        if not with_index:
+            for e in exp.values():
+                if isinstance(e, dict) and "table_dict" in e:
+                    e["table_dict"] = "not read"
         for h, e in exp.items():
             td = e.get("table_dict") if isinstance(e, dict) else None
             if isinstance(td, dict) and "ambiguous" in td:
